@@ -1,15 +1,17 @@
 // C01/C03: run the real aspif reader on a text with a Recorder attached and print the observation
 //   accepted line reports delivered-calls...
 // mode 0: readProgram (accept + parse(Complete));  mode 1: the caller's loop  parse(Incremental); while (more()) parse(Incremental);
+// primed (see reuse.h): the SAME AspifInput object first reads a fixed incremental primer text (calls discarded) and is then
+// attached to the case's text; unprimed cases use a fresh reader (readAspif / a new AspifInput) exactly as before.
 #pragma once
 #include "rec.h"
+#include "reuse.h"
 #include <potassco/aspif.h>
 namespace c01 {
 static int      g_reports = 0;
 static unsigned g_line    = 0;
 inline int onError(int line, const char*) { ++g_reports; g_line = (unsigned)line; return 1; }
-inline int readIncremental(std::istream& in, Potassco::AbstractProgram& out, Potassco::ErrorHandler err) {
-	Potassco::AspifInput reader(out);
+inline int readIncremental(std::istream& in, Potassco::AspifInput& reader, Potassco::ErrorHandler err) {
 	try {
 		if (!reader.accept(in)) { Potassco::BufferedStream::fail(reader.line(), "invalid input format"); }
 		if (!reader.parse(Potassco::ProgramReader::Incremental)) { Potassco::BufferedStream::fail(reader.line(), "invalid input format"); }
@@ -24,12 +26,19 @@ inline int readIncremental(std::istream& in, Potassco::AbstractProgram& out, Pot
 	return 0;
 }
 // appends the observation of one read to o; the recorded calls go to rec (if given) instead of o
-inline bool readText(const std::string& text, int mode, Obs& o, Obs* recOut = 0) {
+inline bool readText(const std::string& text, int mode, Obs& o, Obs* recOut = 0, bool primed = false) {
 	Obs rec; Recorder r(rec);
 	std::istringstream in(text);
+	std::istringstream primer(reuse::ASPIF_PRIMER);
+	Potassco::AspifInput reader(r);
+	if (primed) { reuse::prime(reader, primer); rec.s.clear(); }
 	g_reports = 0; g_line = 0;
 	int rc = -1; int cls = 0;
-	try { rc = mode == 0 ? Potassco::readAspif(in, r, &onError) : readIncremental(in, r, &onError); }
+	try {
+		if      (mode != 0) { rc = readIncremental(in, reader, &onError); }
+		else if (primed)    { rc = Potassco::readProgram(in, reader, &onError); } // = readAspif on an existing reader object
+		else                { rc = Potassco::readAspif(in, r, &onError); }
+	}
 	catch (const std::exception&) { cls = 7; }
 	catch (...) { cls = 8; }
 	if (cls) { o.add(-cls); o.add(0); o.add(g_reports); }           // an exception escaped although a handler was given
